@@ -129,6 +129,18 @@ def parseDirWorld (entries : List String) : Option (List (List Nat Ã— List Nat Ã
 def showSimVerdict : Coord.SimVerdict â†’ String
   | .ok => "ok" | .err => "err" | .circular => "circular" | .panic => "panic" | .outOfFuel => "out-of-fuel"
 
+/-- does some txtpp source of the tree contain a `run` block whose command is not in the vocabulary? Then the
+    generator left its domain (the model cannot know what `sh` does with such a command) and the case is
+    answered `vocab`, which the harness counts and skips. -/
+def offVocabulary (cfg : Cfg) (fs : FS) : Bool :=
+  fs.files.any (fun (p, content) =>
+    (outputPath p).isSome &&
+    (match srcBlocks cfg.mode (decodeLines (byteLines content.toList)).1 with
+     | none => false
+     | some bs => bs.any (fun b => match b with
+        | .dir d _ => d.ty == .run && (cfg.cmds.find? (fun kv => kv.1 == joinWith [' '] d.args)).isNone
+        | .text _ => false)))
+
 def handle (line : String) : String :=
   match line.trimAscii.toString.splitOn " " with
   | ["detect", l] =>
@@ -160,6 +172,7 @@ def handle (line : String) : String :=
     | some mode, some base, some inputs, some fs, some cmds =>
       let cfg : Cfg := { mode := mode, trailing := tr == "t", recursive := rec == "t", baseAbs := base, cmds := cmds }
       let (v, fs') := runProject cfg fs inputs
+      if offVocabulary cfg fs then s!"vocab {showFS fs'}" else
       s!"{showVerdict v} {showFS fs'}"
     | _, _, _, _, _ => "bad-field"
   | ["coord", n, inputs, world, choices, orders] =>
@@ -182,6 +195,7 @@ def handle (line : String) : String :=
         | .ok => "ok"
         | .err => "err"
         | .hasDeps deps => "deps:" ++ ",".intercalate (deps.map hex)
+      if offVocabulary cfg fs then s!"vocab {showFS fs'}" else
       s!"{o} {showFS fs'}"
     | _, _, _, _, _ => "bad-field"
   | ["safe", mode, base, tree, cmds] =>
